@@ -1,6 +1,6 @@
 (* C03 — each action logs exactly one start and one truthful end; errors pass through. *)
 From Coq Require Import List.
-Require Import Eliot.Base.Level Eliot.Model.Core Eliot.Proofs.CoreBasics.
+Require Import Eliot.Base.Level Eliot.Model.Core Eliot.Model.Prog Eliot.Proofs.CoreBasics Eliot.Proofs.CtxFrame Eliot.Proofs.CtxRestore.
 Import ListNotations.
 
 (* finishing again emits nothing and changes nothing *)
@@ -8,3 +8,73 @@ Theorem C03_finish_idempotent :
   forall cfg c s h a exc, alookup h (heap s) = Some a -> a_finished a = true -> finish cfg c s h exc = s.
 Proof. exact finish_idempotent. Qed.
 Print Assumptions C03_finish_idempotent.
+
+(* after finish the action is marked finished, keeping its identity and saved token *)
+Theorem C03_finish_marks_finished :
+  forall cfg c s h a exc, alookup h (heap s) = Some a ->
+    exists a', alookup h (heap (finish cfg c s h exc)) = Some a' /\ a_finished a' = true /\
+               a_uuid a' = a_uuid a /\ a_level a' = a_level a /\ a_token a' = a_token a.
+Proof. exact finish_marks_finished. Qed.
+Print Assumptions C03_finish_marks_finished.
+
+(* at most one end message: a second finish (any outcome, any context, any handle) is the identity *)
+Theorem C03_finish_twice :
+  forall cfg c c' s h exc exc', finish cfg c' (finish cfg c s h exc) h exc' = finish cfg c s h exc.
+Proof. exact CtxRestore.C03_finish_twice. Qed.
+Print Assumptions C03_finish_twice.
+
+(* the first finish is: mark finished, run the extractor, take the next position, Logger.write(finish_message) *)
+Theorem C03_finish_unfold :
+  forall cfg c s h a exc, alookup h (heap s) = Some a -> a_finished a = false ->
+    finish cfg c s h exc =
+      (let '(s1, xf) := extract cfg c (set_heap s h (mark_finished a)) exc in
+       let '(s2, l) := take_level s1 h in
+       logger_write cfg c s2 (finish_message a l exc xf) (finish_ser a exc)).
+Proof. exact finish_unfold. Qed.
+Print Assumptions C03_finish_unfold.
+
+(* ... where the extra fields are those registered for the nearest class in the exception's MRO *)
+Theorem C03_finish_unfold_extracted :
+  forall cfg c s h a exc, alookup h (heap s) = Some a -> a_finished a = false ->
+    exists s2 l, finish cfg c s h exc =
+      logger_write cfg c s2 (finish_message a l exc (extracted cfg exc)) (finish_ser a exc).
+Proof. exact finish_unfold_extracted. Qed.
+Print Assumptions C03_finish_unfold_extracted.
+
+(* the end message says failed exactly when an exception (of any class) escaped, and then names it *)
+Theorem C03_status_truthful :
+  forall a l exc xf,
+    (fget K_status (finish_message a l exc xf) = Some (VStatus Failed) <-> exc <> None) /\
+    (fget K_status (finish_message a l exc xf) = Some (VStatus Succeeded) <-> exc = None) /\
+    (forall e, exc = Some e ->
+       fget K_exception (finish_message a l exc xf) = Some (VClassName (e_cls e)) /\
+       fget K_reason (finish_message a l exc xf) = Some (safe_str e)) /\
+    fget K_uuid (finish_message a l exc xf) = Some (VUuid (a_uuid a)) /\
+    fget K_level (finish_message a l exc xf) = Some (VLevel l) /\
+    fget K_atype (finish_message a l exc xf) = Some (a_type a).
+Proof. exact CtxRestore.C03_status_truthful. Qed.
+Print Assumptions C03_status_truthful.
+
+(* success fields only on a succeeded end, extractor fields only on a failed one *)
+Theorem C03_other_fields :
+  forall a l exc xf k,
+    ~ In k [K_uuid; K_level; K_ts; K_atype; K_status; K_exception; K_reason] ->
+    fget k (finish_message a l exc xf) = match exc with None => fget k (a_succ a) | Some _ => fget k xf end.
+Proof. exact CtxRestore.C03_other_fields. Qed.
+Print Assumptions C03_other_fields.
+
+(* an action block lets exactly its body's exception (same object) through *)
+Theorem C03_same_exception :
+  forall c h style task ty fs sers succ body,
+    snd (compile_stmt c (SAct h style task ty fs sers succ body)) = snd (compile c body).
+Proof. exact CtxRestore.C03_same_exception. Qed.
+Print Assumptions C03_same_exception.
+
+(* what escapes a program is read off the program text: no state, registry, destination or serializer is consulted *)
+Theorem C03_outcome_independent :
+  forall cfg cfg' pre pre' p c,
+    snd (run_prog cfg pre p) = outcome p /\
+    snd (run_prog cfg' pre' p) = snd (run_prog cfg pre p) /\
+    snd (compile c p) = snd (run_prog cfg pre p).
+Proof. exact CtxRestore.C03_outcome_independent. Qed.
+Print Assumptions C03_outcome_independent.
